@@ -85,6 +85,11 @@ func Round(pkg *packages.Package, exempt map[string]bool, counter *int) (*Result
 				n.mutated = map[*ast.FuncDecl]bool{}
 			}
 			before := len(n.log)
+			if n.lowerDeferLiteral(fd) {
+				changed = true
+				n.mutated[fd] = true
+				continue
+			}
 			if n.inlineExprHelpers(fd) {
 				changed = true
 			} else {
@@ -129,6 +134,187 @@ func Round(pkg *packages.Package, exempt map[string]bool, counter *int) (*Result
 	}
 	res.Inlined = n.log
 	return res, nil
+}
+
+// lowerDeferLiteral rewrites the last top-level "defer func() { D }()" of fd into straight-line code:
+//
+//	S0; defer func() { D }(); S1        =>      S0; L: switch { default: S1' }; { D }; return
+//
+// where S1' is S1 with every "return X" turned into "results = X; break L" (the results get names when they have
+// none). On every execution that does not panic the two run the same statements in the same order; what the rewrite
+// drops is that D also runs while a panic unwinds, so the normal form says nothing about panicking executions (no rule
+// of this checker is about them; a literal that calls recover() is left alone). The rewrite is refused when another
+// defer statement follows (the relative order of the deferred calls would change), when the literal takes arguments,
+// and when the body uses goto.
+func (n *normalizer) lowerDeferLiteral(fd *ast.FuncDecl) bool {
+	idx := -1
+	for i, st := range fd.Body.List {
+		if d, ok := st.(*ast.DeferStmt); ok {
+			if lit, isLit := d.Call.Fun.(*ast.FuncLit); isLit && len(d.Call.Args) == 0 && (lit.Type.Params == nil || len(lit.Type.Params.List) == 0) &&
+				(lit.Type.Results == nil || len(lit.Type.Results.List) == 0) {
+				idx = i
+			}
+		}
+	}
+	if idx < 0 {
+		return false
+	}
+	lit := fd.Body.List[idx].(*ast.DeferStmt).Call.Fun.(*ast.FuncLit)
+	ok := true
+	// no recover in the literal; no label/goto anywhere; no further defer behind it
+	ast.Inspect(lit.Body, func(x ast.Node) bool {
+		if call, isCall := x.(*ast.CallExpr); isCall {
+			if id, isId := call.Fun.(*ast.Ident); isId && id.Name == "recover" {
+				if _, isBuiltin := n.info.Uses[id].(*types.Builtin); isBuiltin {
+					ok = false
+				}
+			}
+		}
+		return true
+	})
+	for i, st := range fd.Body.List {
+		i := i
+		ast.Inspect(st, func(x ast.Node) bool {
+			switch y := x.(type) {
+			case *ast.BranchStmt:
+				if y.Tok == token.GOTO {
+					ok = false
+				}
+			case *ast.DeferStmt:
+				if i > idx {
+					ok = false
+				}
+			}
+			return true
+		})
+	}
+	if !ok {
+		return false
+	}
+	// the statements behind the defer must contain a return or end the function; a defer that is the last statement
+	// simply runs D at the end
+	// 1. results: name them, with fresh names (a local of the body may shadow a named result at a return statement)
+	ren := map[types.Object]string{}
+	var resNames []string
+	var newResults *ast.FieldList
+	if fd.Type.Results != nil {
+		newResults = &ast.FieldList{}
+		for _, f := range fd.Type.Results.List {
+			nf := &ast.Field{Type: clone(f.Type, nil, n.info).(ast.Expr)}
+			if len(f.Names) == 0 {
+				nm := n.fresh("res")
+				nf.Names = []*ast.Ident{ast.NewIdent(nm)}
+				resNames = append(resNames, nm)
+			}
+			for _, id := range f.Names {
+				nm := n.fresh(id.Name)
+				if o := n.info.Defs[id]; o != nil && id.Name != "_" {
+					ren[o] = nm
+				}
+				nf.Names = append(nf.Names, ast.NewIdent(nm))
+				resNames = append(resNames, nm)
+			}
+			newResults.List = append(newResults.List, nf)
+		}
+	}
+	nRes := len(resNames)
+	body := clone(fd.Body, ren, n.info).(*ast.BlockStmt)
+	s0 := body.List[:idx]
+	dlit := body.List[idx].(*ast.DeferStmt).Call.Fun.(*ast.FuncLit)
+	s1 := body.List[idx+1:]
+	label := n.fresh("L")
+	used := false
+	okRet := true
+	var lower func(list []ast.Stmt, lbl string, results bool) []ast.Stmt
+	var visit func(st ast.Stmt, lbl string, results bool) ast.Stmt
+	visit = func(st ast.Stmt, lbl string, results bool) ast.Stmt {
+		switch x := st.(type) {
+		case *ast.ReturnStmt:
+			used = true
+			var l []ast.Stmt
+			if results && len(x.Results) > 0 {
+				if len(x.Results) != nRes {
+					if _, isCall := ast.Unparen(x.Results[0]).(*ast.CallExpr); !isCall || len(x.Results) != 1 {
+						okRet = false
+					}
+				}
+				lhs := make([]ast.Expr, nRes)
+				for i, nm := range resNames {
+					lhs[i] = ast.NewIdent(nm)
+				}
+				self := len(x.Results) == nRes
+				for i, r := range x.Results {
+					if id, isID := r.(*ast.Ident); !isID || i >= nRes || id.Name != resNames[i] {
+						self = false
+					}
+				}
+				if !self {
+					l = append(l, &ast.AssignStmt{Lhs: lhs, Tok: token.ASSIGN, Rhs: x.Results})
+				}
+			}
+			l = append(l, &ast.BranchStmt{Tok: token.BREAK, Label: ast.NewIdent(lbl)})
+			return &ast.BlockStmt{List: l}
+		case *ast.BlockStmt:
+			x.List = lower(x.List, lbl, results)
+		case *ast.LabeledStmt:
+			x.Stmt = visit(x.Stmt, lbl, results)
+		case *ast.IfStmt:
+			x.Body.List = lower(x.Body.List, lbl, results)
+			if x.Else != nil {
+				x.Else = visit(x.Else, lbl, results)
+			}
+		case *ast.ForStmt:
+			x.Body.List = lower(x.Body.List, lbl, results)
+		case *ast.RangeStmt:
+			x.Body.List = lower(x.Body.List, lbl, results)
+		case *ast.SwitchStmt:
+			for _, cc := range x.Body.List {
+				cc.(*ast.CaseClause).Body = lower(cc.(*ast.CaseClause).Body, lbl, results)
+			}
+		case *ast.TypeSwitchStmt:
+			for _, cc := range x.Body.List {
+				cc.(*ast.CaseClause).Body = lower(cc.(*ast.CaseClause).Body, lbl, results)
+			}
+		case *ast.SelectStmt:
+			for _, cc := range x.Body.List {
+				cc.(*ast.CommClause).Body = lower(cc.(*ast.CommClause).Body, lbl, results)
+			}
+		}
+		return st
+	}
+	lower = func(list []ast.Stmt, lbl string, results bool) []ast.Stmt {
+		for i, st := range list {
+			list[i] = visit(st, lbl, results)
+		}
+		return list
+	}
+	s1 = lower(append([]ast.Stmt{}, s1...), label, true)
+	if !okRet {
+		return false
+	}
+	var out []ast.Stmt
+	out = append(out, s0...)
+	if used {
+		out = append(out, &ast.LabeledStmt{Label: ast.NewIdent(label), Stmt: &ast.SwitchStmt{Body: &ast.BlockStmt{List: []ast.Stmt{&ast.CaseClause{Body: s1}}}}})
+	} else {
+		out = append(out, &ast.BlockStmt{List: s1})
+	}
+	// D, with its own returns leaving D only
+	used = false
+	dl := n.fresh("L")
+	dstmts := lower(dlit.Body.List, dl, false)
+	if used {
+		out = append(out, &ast.LabeledStmt{Label: ast.NewIdent(dl), Stmt: &ast.SwitchStmt{Body: &ast.BlockStmt{List: []ast.Stmt{&ast.CaseClause{Body: dstmts}}}}})
+	} else {
+		out = append(out, &ast.BlockStmt{List: dstmts})
+	}
+	out = append(out, &ast.ReturnStmt{})
+	fd.Body = &ast.BlockStmt{List: out}
+	if newResults != nil {
+		fd.Type.Results = newResults
+	}
+	n.log = append(n.log, fd.Name.Name+" <- its deferred literal (lowered behind the body)")
+	return true
 }
 
 func hasBuildTag(f *ast.File) bool {
@@ -1134,6 +1320,31 @@ func (n *normalizer) expand(c *callee, st ast.Stmt, kind string) ([]ast.Stmt, bo
 	}
 	// body
 	body := clone(c.body, ren, n.info).(*ast.BlockStmt)
+	// parameters and named results live in the scope of the body's top-level statements, so "x, y := f()" there re-uses
+	// an x that is a parameter/result. In the expansion the body becomes a nested block and the same statement would
+	// declare a new x, leaving the result variable unassigned: route the re-used names through temporaries.
+	{
+		var nl []ast.Stmt
+		for i, s := range body.List {
+			nl = append(nl, s)
+			orig, isAs := c.body.List[i].(*ast.AssignStmt)
+			cp, _ := s.(*ast.AssignStmt)
+			if !isAs || cp == nil || orig.Tok != token.DEFINE {
+				continue
+			}
+			for j, l := range orig.Lhs {
+				id, isID := l.(*ast.Ident)
+				if !isID || id.Name == "_" || n.info.Defs[id] != nil {
+					continue
+				}
+				tmp := n.fresh(id.Name + "_re")
+				target := cp.Lhs[j]
+				cp.Lhs[j] = ast.NewIdent(tmp)
+				nl = append(nl, &ast.AssignStmt{Lhs: []ast.Expr{target}, Tok: token.ASSIGN, Rhs: []ast.Expr{ast.NewIdent(tmp)}})
+			}
+		}
+		body.List = nl
+	}
 	deferVar := ""
 	if c.nestedDefer {
 		deferVar = n.fresh("deferred")
@@ -1153,14 +1364,76 @@ func (n *normalizer) expand(c *callee, st ast.Stmt, kind string) ([]ast.Stmt, bo
 	}
 	label := n.fresh("L")
 	usedLabel := false
+	preLabel := n.fresh("L")
+	usedPreLabel := false
 	var deferred *ast.DeferStmt
-	var stmts []ast.Stmt
+	var pre, stmts []ast.Stmt
 	for _, s := range body.List {
 		if d, ok := s.(*ast.DeferStmt); ok && !c.nestedDefer {
 			deferred = d
+			pre, stmts = stmts, nil
 			continue
 		}
 		stmts = append(stmts, s)
+	}
+	if deferred != nil {
+		// the operands of the deferred call are evaluated at the defer statement; the call is placed behind the
+		// statements that follow it, so they must not change there
+		after := false
+		used := map[types.Object]bool{}
+		changed := false
+		for _, s := range c.body.List {
+			if d, ok := s.(*ast.DeferStmt); ok {
+				after = true
+				ast.Inspect(d.Call, func(x ast.Node) bool {
+					if _, isLit := x.(*ast.FuncLit); isLit {
+						return false
+					}
+					if id, ok := x.(*ast.Ident); ok {
+						if o, isVar := n.info.Uses[id].(*types.Var); isVar && !o.IsField() {
+							used[o] = true
+						}
+					}
+					return true
+				})
+				continue
+			}
+			if !after {
+				continue
+			}
+			ast.Inspect(s, func(x ast.Node) bool {
+				mark := func(e ast.Expr) {
+					if id, ok := ast.Unparen(e).(*ast.Ident); ok {
+						if o := n.info.Uses[id]; o != nil && used[o] {
+							changed = true
+						}
+					}
+				}
+				switch y := x.(type) {
+				case *ast.AssignStmt:
+					for _, l := range y.Lhs {
+						mark(l)
+					}
+				case *ast.IncDecStmt:
+					mark(y.X)
+				case *ast.UnaryExpr:
+					if y.Op == token.AND {
+						mark(y.X)
+					}
+				case *ast.RangeStmt:
+					if y.Key != nil {
+						mark(y.Key)
+					}
+					if y.Value != nil {
+						mark(y.Value)
+					}
+				}
+				return true
+			})
+		}
+		if changed {
+			return nil, false
+		}
 	}
 	// a trailing return needs no jump
 	var tail *ast.ReturnStmt
@@ -1181,6 +1454,7 @@ func (n *normalizer) expand(c *callee, st ast.Stmt, kind string) ([]ast.Stmt, bo
 		return []ast.Stmt{&ast.AssignStmt{Lhs: lhs, Tok: token.ASSIGN, Rhs: r.Results}}
 	}
 	okRet := true
+	curLabel, curUsed := label, &usedLabel
 	var replaceReturns func(list []ast.Stmt) []ast.Stmt
 	var visitStmt func(s ast.Stmt) ast.Stmt
 	visitStmt = func(s ast.Stmt) ast.Stmt {
@@ -1192,11 +1466,13 @@ func (n *normalizer) expand(c *callee, st ast.Stmt, kind string) ([]ast.Stmt, bo
 					okRet = false
 				}
 			}
-			usedLabel = true
-			l := append(assignResults(x), &ast.BranchStmt{Tok: token.BREAK, Label: ast.NewIdent(label)})
+			*curUsed = true
+			l := append(assignResults(x), &ast.BranchStmt{Tok: token.BREAK, Label: ast.NewIdent(curLabel)})
 			return &ast.BlockStmt{List: l}
 		case *ast.BlockStmt:
 			x.List = replaceReturns(x.List)
+		case *ast.LabeledStmt:
+			x.Stmt = visitStmt(x.Stmt)
 		case *ast.IfStmt:
 			x.Body.List = replaceReturns(x.Body.List)
 			if x.Else != nil {
@@ -1236,17 +1512,33 @@ func (n *normalizer) expand(c *callee, st ast.Stmt, kind string) ([]ast.Stmt, bo
 		}
 		stmts = append(stmts, assignResults(tail)...)
 	}
+	if deferred != nil {
+		// a return in front of the defer statement leaves without running the deferred call
+		curLabel, curUsed = preLabel, &usedPreLabel
+		pre = replaceReturns(pre)
+	}
 	if !okRet {
 		return nil, false
 	}
+	var inner ast.Stmt
 	if usedLabel {
 		sw := &ast.SwitchStmt{Body: &ast.BlockStmt{List: []ast.Stmt{&ast.CaseClause{Body: stmts}}}}
-		out = append(out, &ast.LabeledStmt{Label: ast.NewIdent(label), Stmt: sw})
+		inner = &ast.LabeledStmt{Label: ast.NewIdent(label), Stmt: sw}
 	} else {
-		out = append(out, &ast.BlockStmt{List: stmts})
+		inner = &ast.BlockStmt{List: stmts}
 	}
-	if deferred != nil {
-		out = append(out, &ast.ExprStmt{X: deferred.Call})
+	if deferred == nil {
+		out = append(out, inner)
+	} else {
+		// the deferred call runs behind the rest of the body, inside the scope of the declarations that precede the
+		// defer statement (its operands may be declared there)
+		all := append(append([]ast.Stmt{}, pre...), inner, &ast.ExprStmt{X: deferred.Call})
+		if usedPreLabel {
+			sw := &ast.SwitchStmt{Body: &ast.BlockStmt{List: []ast.Stmt{&ast.CaseClause{Body: all}}}}
+			out = append(out, &ast.LabeledStmt{Label: ast.NewIdent(preLabel), Stmt: sw})
+		} else {
+			out = append(out, &ast.BlockStmt{List: all})
+		}
 	}
 	if deferVar != "" {
 		out = append(out, &ast.IfStmt{Cond: &ast.BinaryExpr{X: ast.NewIdent(deferVar), Op: token.NEQ, Y: ast.NewIdent("nil")},
